@@ -301,7 +301,10 @@ def store(
                 lock=lock,
                 return_stored=return_stored,
                 load_stored=load_stored,
-                name="store-map",
+                # A target is a sink that is written in place: two targets with
+                # equal current contents (tokenize() hashes ndarray data) are
+                # still two writes, so name the write by the target's identity.
+                name=f"store-map-{id(t):x}",
                 meta=s._meta,
             )
         )
